@@ -68,3 +68,12 @@ claim("C32",
       "0 <= num - q*y < y), itob, btoi (lengths 0..9), sqrt (operand < 2^16 quick / 2^32 thorough), and byte math b+ b- b* b/ b% b< b> b<= b>= b== b!= on big-endian operands of symbolic length and content "
       "(<= 2 bytes quick, <= 4 thorough; * / % <= 1 / 2 bytes) with math/big executed as real pure-Go code, plus the 64-byte input limit. A Go panic inside an opcode is a violation.",
       "64-bit uint ops are full width. exp/expw/divmodw/bsqrt and bitwise byte ops are not yet covered. math/big is loaded with the math_big_pure_go tag (same semantics as the assembly kernels used natively).")
+
+claim("C31",
+      "One EvalContext.step() of every opcode of the real latest-version dispatch table (built by the package's own init, executed by the engine from the current tree), in signature mode, with the stack filled according to the opcode's declared "
+      "argument types by fully symbolic uint64 values / byte strings of symbolic length and content, symbolic intc/bytec/arg contents and symbolic immediate bytes after the opcode. Decided: no Go panic is reachable inside step() "
+      "(eval()'s recover never fires for these steps), and after a successful step cost <= budget, stack depth <= maxStackDepth, every byte string <= maxStringSize, pc inside the program. The ledger is nil, so the same run decides that no opcode "
+      "that executes in signature mode reaches ledger code (C34).",
+      "Bounds: 3 symbolic program bytes after the opcode (thorough 6), byte-string operands <= 1 byte (thorough 2), single step from a stack of exactly the declared arity. Not executed (stated in the harness): cgo / large field-library crypto opcodes "
+      "(ed25519verify*, ecdsa_*, vrf_verify, falcon_verify, ec_*, mimc, sumhash512, sha*/keccak, json_ref) and the multi-word arithmetic opcodes covered by C32 (divmodw, exp, expw, sqrt, b*, b/, b%, bsqrt); operands that size an allocation/loop (bzero, dupn, popn) <= 4. "
+      "Whole-program termination, application mode and inner transactions are outside this check.")
